@@ -112,8 +112,8 @@ theorem localSet_world (M : Model) (ν : BaseValues) (hM : Compatible M G) (fact
 
 /-- **marginalisation to the event**: the joint distribution of all non-self-intervened variables in the world `w` of the
 event, summed over the variables that are not in the event, is the probability of the event -/
-theorem sumOver_world (M : Model) (ν : BaseValues) (dom : Name → Nat) (hdom : ∀ u d v, solve M u d v < dom v)
-    (facts : SWFacts G w ev g nev) (hfr : Frag G w ev) (hnsiK : ∀ k ∈ nev.keys, isNotSelfIntervened k = true)
+theorem sumOver_world (M : Model) (ν : BaseValues) (dom : Name → Nat) (hM : Compatible M G)
+    (hdom : ∀ v ps us, M.f v ps us < dom v) (facts : SWFacts G w ev g nev) (hfr : Frag G w ev) (hnsiK : ∀ k ∈ nev.keys, isNotSelfIntervened k = true)
     (T : List Name) (hT : ∀ V, V ∈ T ↔ ∃ n ∈ (nsiSubgraph g).nodes, n.name = V) (rs : List Name) (hrs : rs.Nodup)
     (hrsm : ∀ V, V ∈ rs ↔ V ∈ T ∧ V ∉ ev.keys.map (·.name)) (σ : Valuation) :
     sumOver dom rs (fun τ => prob M (T.map fun V => ⟨V, worldOf (nuOf ν τ) w, τ V⟩)) σ = probEvent M (nuOf ν σ) ev := by
@@ -122,7 +122,15 @@ theorem sumOver_world (M : Model) (ν : BaseValues) (dom : Name → Nat) (hdom :
     obtain ⟨n, hnN, rfl⟩ := (hT V).1 hV
     obtain ⟨hng, hnsi⟩ := (mem_nsiSubgraph_iff g n).1 hnN
     exact facts.notW n hng hnsi
-  rw [sumOver_prob M dom hdom T (fun τ => worldOf (nuOf ν τ) w) rs hrs (fun r hr => ((hrsm r).1 hr).1)
+  have hbound : ∀ r ∈ rs, ∀ (τ : Valuation) (u : NoisePoint), solve M u (worldOf (nuOf ν τ) w) r < dom r := by
+    intro r hr τ u
+    have hrT := ((hrsm r).1 hr).1
+    obtain ⟨n, hnN, hnr⟩ := (hT r).1 hrT
+    have hng := ((mem_nsiSubgraph_iff g n).1 hnN).1
+    have hro : r ∈ M.order := by rw [← hnr]; exact (hM.perm.mem_iff).2 (facts.nodeOK n hng).inG
+    rw [solve_unforced M hM.topoOrder u _ r hro (forced_worldOf_none' _ w r (hnotW r hrT))]
+    exact hdom _ _ _
+  rw [sumOver_prob M dom T (fun τ => worldOf (nuOf ν τ) w) rs hbound hrs (fun r hr => ((hrsm r).1 hr).1)
     (fun r hr τ x => worldOf_nuOf_update ν τ w hfr.wUnst r (hnotW r ((hrsm r).1 hr).1) x) σ]
   unfold probEvent
   -- the remaining variables are exactly the key names
